@@ -337,7 +337,7 @@ def gen_history(rng: random.Random, length: int, voc: List[Tuple], listeners: bo
                 ms = rng.choice([rng.randrange(0, 3000), rng.randrange(0, 20000), rng.randrange(0, 5_000_000)])
             steps.append(("adv", ms))
         else:
-            steps.append(("listener", rng.choice(["add", "remove", "add-churner", "remove-self-in-cb", "add-in-cb", "remove-other-in-cb", "add-again"])))
+            steps.append(("listener", rng.choice(["add", "remove", "add-churner", "remove-self-in-cb", "add-in-cb", "remove-other-in-cb", "add-again", "add-q-in-cb"])))
     return steps
 
 
@@ -420,6 +420,7 @@ class Harness:
         self.spy_counter = 0
         self.removed_during: Set[int] = set()
         self.added_during: Set[int] = set()
+        self.added_with_question: Set[int] = set()
 
     def viol_for(self, prop: str):
         def viol(monitor: str, kind: str, detail: str, **sig: Any) -> None:
@@ -447,6 +448,15 @@ class Harness:
             s = self.new_spy("plain")
             rm.async_add_listener(s, None)
             self.added_during.add(id(s))
+            spy.behaviour = "plain"
+        elif b == "add-q-in-cb" and phase == "update":
+            # what a browser or a lookup started from inside a callback does: a listener added together with a question (it is
+            # handed the cached records that answer it at once)
+            import zeroconf._dns as d
+            s = self.new_spy("plain")
+            rm.async_add_listener(s, d.DNSQuestion(TYPE_NAME[0], 12, 1))
+            self.added_during.add(id(s))
+            self.added_with_question.add(id(s))
             spy.behaviour = "plain"
         elif b == "remove-other-in-cb" and phase == "update":
             others = [x for x in self.registered_now() if x is not spy]
@@ -661,9 +671,10 @@ class Harness:
                 if sid in self.removed_during and comps:
                     v6("c06.contract", "complete_after_removal", "%s: a listener removed during the first round of this datagram got %d "
                        "async_update_records_complete call(s) after async_remove_listener had returned" % (where, len(comps)), who="removed")
-                if sid in self.added_during and len(comps) != 1:
+                replayed = 1 if (sid in self.added_with_question and [c for c in s.calls if c[0] == "update"]) else 0
+                if sid in self.added_during and len(comps) != 1 + replayed:
                     v6("c06.contract", "added_listener_not_completed", "%s: a listener registered during the first round of this datagram got %d "
-                       "async_update_records_complete calls (expected 1: it is registered when the second round happens)" % (where, len(comps)), who="added")
+                       "async_update_records_complete calls (expected %d: it is registered when the second round happens)" % (where, len(comps), 1 + replayed), who="added")
         res.cls("listeners", "n=%d" % len(at_start), "removed=%d" % len(self.removed_during), "added=%d" % len(self.added_during))
 
     def classify_dgram(self, recs, pre, now) -> None:
